@@ -6,6 +6,8 @@
 //! Scenario (JSON): {"name":..,"workers":1..2,"shutdown_s":1..2,"conns":N,"stop":"graceful"|"forced",
 //!   "release":[{"c":0,"at":"before_stop"|"never"|<ms after stop>}], "second_stop":bool, "drop_future":bool,
 //!   "pause_first":bool, "late_connect":bool, "stop_gap_ms":N, "busy_ms":N}
+//! accept_delay_ms (solo scenarios only): while set, the accept thread is held that long whenever it logs "resume accepting
+//!   connections" (tracing subscriber); resume_then_stop: resume() and stop() are issued back to back
 //! busy_ms: every connection handler blocks its worker thread for N ms right after it started (no yield)
 //! stop_gap_ms: the server thread is held for N ms between telling the accept thread to stop and sending Stop to the
 //! workers (hook `stop_gap`): the schedule "accept thread exits before the workers hear about the stop".
@@ -68,6 +70,54 @@ impl Drop for KillNote {
             self.log.emit(json!({"e": "ConnKilled", "c": self.c}));
         }
     }
+}
+
+// ------------------------------------------------------------------------------------------------
+// holding the ACCEPT thread: a tracing subscriber that sleeps when actix-server logs that it resumes accepting
+// ------------------------------------------------------------------------------------------------
+/// while > 0 every "resume accepting connections" log line of actix-server holds the logging (= accept) thread that long.
+/// Process-wide: only set by scenarios that run alone (`solo`).
+pub static ACCEPT_RESUME_DELAY_MS: std::sync::atomic::AtomicU64 = std::sync::atomic::AtomicU64::new(0);
+
+struct MsgVisitor(String);
+impl tracing::field::Visit for MsgVisitor {
+    fn record_debug(&mut self, field: &tracing::field::Field, value: &dyn std::fmt::Debug) {
+        if field.name() == "message" {
+            use std::fmt::Write as _;
+            let _ = write!(self.0, "{:?}", value);
+        }
+    }
+}
+struct DelaySubscriber;
+impl tracing::Subscriber for DelaySubscriber {
+    fn enabled(&self, m: &tracing::Metadata<'_>) -> bool {
+        m.target().starts_with("actix_server")
+    }
+    fn new_span(&self, _: &tracing::span::Attributes<'_>) -> tracing::span::Id {
+        tracing::span::Id::from_u64(1)
+    }
+    fn record(&self, _: &tracing::span::Id, _: &tracing::span::Record<'_>) {}
+    fn record_follows_from(&self, _: &tracing::span::Id, _: &tracing::span::Id) {}
+    fn event(&self, ev: &tracing::Event<'_>) {
+        let ms = ACCEPT_RESUME_DELAY_MS.load(Ordering::SeqCst);
+        if ms == 0 {
+            return;
+        }
+        let mut v = MsgVisitor(String::new());
+        ev.record(&mut v);
+        if v.0.contains("resume accepting") {
+            thread::sleep(Duration::from_millis(ms));
+        }
+    }
+    fn enter(&self, _: &tracing::span::Id) {}
+    fn exit(&self, _: &tracing::span::Id) {}
+}
+/// installs the subscriber once per process (a no-op while ACCEPT_RESUME_DELAY_MS is 0)
+pub fn install_delay_subscriber() {
+    static ONCE: std::sync::Once = std::sync::Once::new();
+    ONCE.call_once(|| {
+        let _ = tracing::subscriber::set_global_default(DelaySubscriber);
+    });
 }
 
 fn wait_until(timeout: Duration, f: impl Fn() -> bool) -> bool {
@@ -173,6 +223,12 @@ pub fn run_scenario(sc: &Value) -> Vec<Value> {
         }
     }
 
+    // "resume_then_stop": the resume and the stop are issued back to back (the accept thread may still be busy with the
+    // resume - made long by `accept_delay_ms` - when the stop is handled by the server)
+    if sc["resume_then_stop"].as_bool().unwrap_or(false) {
+        let _ = handle.resume();
+        log.emit(json!({"e": "ResumeCalled"}));
+    }
     // the stop(s)
     let mut stop_threads = vec![];
     let nstops = if sc["second_stop"].as_bool().unwrap_or(false) { 2 } else { 1 };
